@@ -204,7 +204,21 @@ func ruleWITHIN1(c *Ctx) {
 			}
 			return []st{s}
 		}
-		fl.Leaf = func(e ast.Expr, s st) (t, fs []st) { s = visit(e, s); return []st{s}, []st{s} }
+		fl.Leaf = func(e ast.Expr, s st) (t, fs []st) {
+			s = visit(e, s)
+			// `if !wasWithin { clear }` with wasWithin := Flags.Get(WithinArshalCall): where the mark was already
+			// on before this bracket (a nested call) leaving it on is the restoration
+			if v := IdentObj(info, e); v != nil {
+				for _, d := range defsOf(info, f.Body(), v) {
+					if gv, isGet := IsFlagGet(info, d); isGet && gv&^1 == within {
+						was := s
+						was.on = false
+						return []st{was}, []st{s}
+					}
+				}
+			}
+			return []st{s}, []st{s}
+		}
 		fl.Run(st{})
 		c.Oblige("mark-removed:"+f.Name, f.Pos(), bad == "", bad)
 	}
@@ -664,6 +678,7 @@ func ruleNS4(c *Ctx) {
 // ---- UNSUP-1 -------------------------------------------------------------------
 
 func ruleUNSUP1(c *Ctx) {
+	unsupSkippableRegistered(c)
 	p := c.P
 	nIs, k := 0, 0
 	isUnsup := func(info *types.Info, e ast.Expr) bool {
